@@ -17,6 +17,7 @@ HERE = os.path.dirname(os.path.abspath(__file__))
 sys.path.insert(0, HERE)
 import configs as C
 from props import PROPS  # per-property registry
+import glob as _glob
 
 REPO = os.environ.get("VERIF_REPO", "/repo")
 INC = os.path.join(REPO, "include")
@@ -154,7 +155,7 @@ def load_known(pid):
         ln = ln.strip()
         if not ln.startswith("open:"):
             continue
-        head, _, text = ln[5:].partition("::")
+        head, _, text = ln[5:].partition(" :: ")
         kv = dict(tok.split("=", 1) for tok in head.split() if "=" in tok)
         if kv.get("property") != pid:
             continue
